@@ -18,6 +18,7 @@ CRYPTO_ASSUME = [
     "crypto/rand returns fresh symbolic octets per read (every outcome of the randomness), or fails at the injected read",
 ]
 
+UA_RAND = [SEC + ".GenerateRandomNumber"]
 PAYLOAD_KINDS = [33, 34, 35, 36, 37, 38, 39, 40, 41, 42, 43, 44, 45, 47, 48]
 
 
@@ -279,6 +280,10 @@ def c07_jobs(tier):
                 for role in (0, 1):
                     jobs.append(job(ROOT, "HTwoPartyKeys", [e, i, p, role, 40, 0]))
     jobs.append(job(SEC, "HIKESAKeysRefuse", []))
+    for d in range(2):
+        for k in range(9 if q else 27):
+            e, i, p = (k % 3, (k // 3) % 3, (k + k // 3) % 3) if q else (k % 3, (k // 3) % 3, k // 9)
+            jobs.append(job(SEC, "HNewIKESAKey", [d, e, i, p], bytes_full=True, unwind_assume=UA_RAND))
     return jobs
 
 
@@ -405,9 +410,6 @@ def c12_jobs(tier):
     return jobs
 
 
-UA_RAND = [SEC + ".GenerateRandomNumber"]
-
-
 def c11_jobs(tier):
     jobs = []
     for k, n in ((0, 3), (1, 3), (2, 3), (3, 3), (4, 3), (5, 2), (6, 2)):
@@ -425,7 +427,46 @@ def c11_jobs(tier):
     return jobs
 
 
+_PRIMES = None
+
+
+def rfc_primes():
+    """RFC 2409 / RFC 3526 primes computed from their defining formula with 900-digit pi (mpmath in the tooling venv)."""
+    global _PRIMES
+    if _PRIMES is None:
+        import subprocess
+        code = ("from mpmath import mp, floor, pi\nmp.dps=900\n"
+                "f=lambda n,c: 2**n - 2**(n-64) - 1 + 2**64*(int(floor(mp.mpf(2)**(n-130)*pi)) + c)\n"
+                "print('%X %X' % (f(1024,129093), f(2048,124476)))")
+        out = subprocess.run(["/opt/veriftools/pyvenv/bin/python3", "-c", code], capture_output=True, text=True)
+        if out.returncode != 0:
+            raise RuntimeError("cannot compute the RFC primes: " + out.stderr)
+        _PRIMES = out.stdout.split()
+    return _PRIMES
+
+
+def c09_jobs(tier):
+    q = tier == "quick"
+    jobs = []
+    sp = rfc_primes()
+    for g in (0, 1):
+        jobs.append(job(DH, "HPrimes", [g], sparams=sp))
+        lens = {} if (g == 0 or not q) else dict(bytes_lens=[256, 255, 254, 128, 1, 0])
+        jobs.append(job(DH, "HPublicValue", [g], wall_ms=900000, **lens))
+        jobs.append(job(DH, "HSharedKey", [g], wall_ms=900000, **lens))
+        jobs.append(job(DH, "HAgreement", [g], bytes_full=True))
+        jobs.append(job(SEC, "HNewIKESAKeyFault", [g]))
+    for k in (0, 1, 2, 3):
+        jobs.append(job(SEC, "HRandomNumber", [k], unwind_assume=UA_RAND))
+    return jobs
+
+
 PROPS = {
+    "C09": dict(jobs=c09_jobs, claim="Ground queries: the parsed modulus of both groups equals the RFC prime computed (not copied) from its defining formula with 900-digit pi, generator 2, modulus length 128 / 256. With big.Int.Exp uninterpreted (modexp < m for m > 0; modexp(modexp(g,a),b) = modexp(modexp(g,b),a)): for every exponent x < 2^2048 and peer value y < 2^2056, GetPublicValue / GetSharedKey return exactly the modulus-length big-endian image of 2^x / y^x mod p - the executor forks over every possible minimal length of the result, so leading zero octets are covered for every value; both parties' shared secrets agree; a generated exponent is the value delivered by the random source in that call, lies in [2^128, 2^2048), a second call returns a later draw, and a failing source at either call (and inside NewIKESAKey) gives an error and no key.",
+                bounds=lambda t: "group 2: all 129 minimal lengths of the result; group 14: %s; agreement under the assumption of full-length public and shared values; exponent rejection loop unwound twice (unwinding assumption: termination is probabilistic)" % ("minimal lengths {256,255,254,128,1,0}" if t == "quick" else "all 257 minimal lengths"),
+                outside="that math/big.Exp computes modular exponentiation and that two draws of the system source differ (trusted contracts of the standard library)",
+                assumptions=["math/big.Int.Exp is an uninterpreted function with modexp(b,e,m) < m and commutation in the exponents; SetString/SetBytes/Bytes/Cmp are modelled on 2176-bit vectors", "crypto/rand.Int returns a fresh symbolic value below its bound, or fails at the injected call"]),
+
     "C11": dict(jobs=c11_jobs, claim="Exhaustive over the advertised names (3 encr, 3 integ, 3 prf, 2 dh, 2 esn; IKE and Child variants), directly and through a real SA Marshal/Unmarshal: ToTransform gives the registry identifier and attribute of an independent IANA/RFC table, DecodeTransform gives back the same descriptor, lengths match the RFC table. The universal part is one solver query per decode function instead of 65536 identifiers: for a transform with symbolic identifier and symbolic attribute (absent / TV with symbolic type and value / TLV), directly and after the wire, result != nil implies exactly the advertised (identifier, key-length attribute type 14 in TV form, value in {128,192,256}, matching key size); a single-choice proposal with one foreign transform makes NewIKESAKey / NewChildSAKeyByProposal fail.",
                 bounds=lambda t: "all advertised names; symbolic identifier x attribute forms {absent, TV, TLV of 1..3 octets}; foreign transform in each of the 4 positions of an IKE / Child proposal",
                 outside="TLV values longer than 3 octets; proposals with several transforms per type (the library reads the first)",
@@ -450,7 +491,8 @@ PROPS = {
 
     "C07": dict(jobs=c07_jobs, claim="For all 27 (encryption key size, integrity, PRF) combinations and each (nonce, secret) length pair in the bound, for all octet values and SPIs: the seven SK_* values equal the consecutive slices of an independently written prf+ over an independently written SKEYSEED, with lengths from an independent RFC table; every ready-made PRF / integrity / cipher object is keyed with exactly those keys (probed through its public interface); two parties deriving from the same inputs hold identical keys and what one protects the other unprotects, in both directions.",
                 bounds=lambda t: "nonce / shared-secret lengths from %s; probe message 5 octets" % ("{1,2,15,16,17,32,64} (3 pairs per combination)" if t == "quick" else "1..64 and {128,256,512}"),
-                outside="other lengths up to 512 (these buffers are only appended and hashed); the Diffie-Hellman step itself is C09", assumptions=CRYPTO_ASSUME),
+                outside="other lengths up to 512 (these buffers are only appended and hashed); the Diffie-Hellman step itself is C09",
+                assumptions=CRYPTO_ASSUME + ["HNewIKESAKey: Diffie-Hellman values are taken from the library's own group functions (decided by C09), public and shared values assumed without leading zero octet, exponent rejection loop unwound twice"]),
     "C08": dict(jobs=c08_jobs, claim="For all PRFs x ESP key sizes x {none, MD5-96, SHA1-96, SHA2-256-128} and nonce lengths in the bound, for all SK_d and nonce octets: the four Child SA keys equal consecutive slices of the independent prf+(SK_d, Ni|Nr) in the prescribed order. Histories are decided by an inductive step: the IKE SA's Prf_d starts with arbitrary octets already written (any state an earlier use can leave, since the only state is the HMAC buffer) and the keys must still equal the specification, and a second derivation on the same object gives them again.",
                 bounds=lambda t: "nonce lengths %s, junk already in the PRF object %s octets" % (("{0,1,16,32}", "{0,5}") if t == "quick" else ("0..32 and 64", "{0,1,8,63,64,65}")),
                 outside="other nonce lengths", assumptions=CRYPTO_ASSUME),
